@@ -123,3 +123,7 @@ Section Safe.
 End Safe.
 
 Definition no_floats : N -> bool := fun _ => false.
+(* the three non-finite doubles (the patterns the parser produces for them: `inf` / an overflowing literal, `-inf` / a literal
+   overflowing downwards, `nan`): their printed texts inf, -inf, NaN are read back (PathRoundtrip.path_float_reads_back_nonfinite;
+   -inf since the fix e1187a7 of the crate) *)
+Definition nonfinite_floats (b : N) : bool := (b =? F_INF) || (b =? F_NEG_INF) || (b =? F_NAN).
